@@ -879,6 +879,7 @@ func l2Sig(hist, fresh map[string][]layer2.VerifAdv) string {
 
 func runSpk(c spkCase, tr *vw.Trace, j05, j09 bool, extra ...string) *vw.Violation {
 	j18 := len(extra) > 0 && extra[0] == "c18"
+	j08 := len(extra) > 0 && extra[0] == "c08"
 	r := &spkRun{c: c, tr: tr, w: vw.NewWorld(), sl: &vfSpeakerList{info: speakerlist.SpeakerListInfo{Disabled: c.Disabled, Nodes: map[string]bool{}}}, ever: map[string]bool{}, j05: j05, j09: j09}
 	r.cl = c.Cluster
 	r.w.SetCluster(r.cl)
@@ -1025,6 +1026,17 @@ func runSpk(c spkCase, tr *vw.Trace, j05, j09 bool, extra ...string) *vw.Violati
 			if v := r.atQuiescence(label); v != nil {
 				return v
 			}
+			if j08 && r.sim.hasCfg && r.sim.lastCfgOK {
+				// the configuration the speaker runs with must be the conversion of what the store holds now (all nodes,
+				// all namespaces, current labels): nothing is pending, so no change may still be on its way
+				if want, err := verifcfg.Config(r.cl, config.DontValidate); err == nil {
+					tr.Class("running-configuration-compared-with-store")
+					tr.NonTrivial()
+					if have := r.sim.c.config; have == nil || !reflect.DeepEqual(want, have) {
+						return vw.Violationf("running-configuration-differs-from-store", "%s: nothing is pending and the store holds a valid configuration, but the speaker runs with a different one: %s", label, c08Diff(want, have))
+					}
+				}
+			}
 			if j18 && r.sim.hasCfg && r.sim.lastCfgOK {
 				// one more reconcile of the unchanged store: the speaker that announced services out of the remembered
 				// configuration must not be handed that configuration again
@@ -1061,8 +1073,8 @@ var spkAssumptions = []string{
 const spkRule = "1..3 pools (/24, /28, /124 with label sets), 1..4 nodes, 0..2 L2 advertisements (node/pool selectors, interface lists), 0..3 peers with node selectors, 0..3 BGP advertisements (aggregation lengths, localpref, legacy/large communities, peer lists, node/pool selectors); 3..25 ops: service create / address change / type / policy / endpoint slices / delete, node change or add, configuration change (pool set, rename, advertisements and peers), membership change, scheduled single reconciliations, run-to-quiescence"
 
 func TestVerifC05Spk(t *testing.T) {
-	vw.Run(t, vw.Options{Property: "C05", Engine: "speaker", Rule: spkRule + "; at every quiescence the last Set on every live recording session and PeersForService are compared with the closed form; non-trivial = >=2 live peers and an advertisement with a peer list or a proper aggregation length on an announced service", Assumptions: spkAssumptions},
-		genSpkCase, func(c spkCase, tr *vw.Trace) *vw.Violation { return runSpk(c, tr, true, false) })
+	vw.Run(t, vw.Options{Property: "C05", Engine: "speaker", Rule: spkRule + "; at every quiescence the last Set on every live recording session and PeersForService are compared with the closed form (computed from the configuration the speaker accepted) and with freshly started speakers fed the final store (so a configuration change the speaker never took up shows); non-trivial = >=2 live peers and an advertisement with a peer list or a proper aggregation length on an announced service, or a withdraw-causing event happened", Assumptions: spkAssumptions},
+		genSpkCase, func(c spkCase, tr *vw.Trace) *vw.Violation { return runSpk(c, tr, true, true) })
 }
 
 func TestVerifC09Spk(t *testing.T) {
@@ -1100,4 +1112,46 @@ func TestVerifC13Spk(t *testing.T) {
 func TestVerifC18Spk(t *testing.T) {
 	vw.Run(t, vw.Options{Property: "C18", Engine: "speaker", Rule: spkRule + "; at every quiescence the resources are reconciled once more from the unchanged store: the real ConfigReconciler must not deliver the configuration to the real speaker again (nothing the speaker does with the configuration it was given may make the next computation look different); non-trivial = such a reconcile happened after an accepted configuration", Assumptions: spkAssumptions},
 		genSpkCase, func(c spkCase, tr *vw.Trace) *vw.Violation { return runSpk(c, tr, false, false, "c18") })
+}
+
+func c08Diff(want, have *config.Config) string {
+	if have == nil {
+		return "none"
+	}
+	for name, wp := range want.Pools.ByName {
+		hp := have.Pools.ByName[name]
+		if hp == nil {
+			return "pool " + name + " missing"
+		}
+		if !reflect.DeepEqual(wp, hp) {
+			d := fmt.Sprintf("pool %s differs", name)
+			for i := range wp.L2Advertisements {
+				if i < len(hp.L2Advertisements) && !reflect.DeepEqual(wp.L2Advertisements[i].Nodes, hp.L2Advertisements[i].Nodes) {
+					d += fmt.Sprintf("; L2 advertisement %d nodes: store %v, speaker %v", i, wp.L2Advertisements[i].Nodes, hp.L2Advertisements[i].Nodes)
+				}
+			}
+			for i := range wp.BGPAdvertisements {
+				if i < len(hp.BGPAdvertisements) && !reflect.DeepEqual(wp.BGPAdvertisements[i].Nodes, hp.BGPAdvertisements[i].Nodes) {
+					d += fmt.Sprintf("; BGP advertisement %d nodes: store %v, speaker %v", i, wp.BGPAdvertisements[i].Nodes, hp.BGPAdvertisements[i].Nodes)
+				}
+			}
+			if len(wp.L2Advertisements) != len(hp.L2Advertisements) || len(wp.BGPAdvertisements) != len(hp.BGPAdvertisements) {
+				d += fmt.Sprintf("; advertisements: store %d L2 / %d BGP, speaker %d / %d", len(wp.L2Advertisements), len(wp.BGPAdvertisements), len(hp.L2Advertisements), len(hp.BGPAdvertisements))
+			}
+			return d
+		}
+	}
+	if len(want.Pools.ByName) != len(have.Pools.ByName) {
+		return fmt.Sprintf("%d pools in the store, %d in the speaker", len(want.Pools.ByName), len(have.Pools.ByName))
+	}
+	if !reflect.DeepEqual(want.Peers, have.Peers) {
+		return "peers differ"
+	}
+	return "other fields differ"
+}
+
+// C08 on the running speaker: the accepted configuration is the conversion of the current store.
+func TestVerifC08Spk(t *testing.T) {
+	vw.Run(t, vw.Options{Property: "C08", Engine: "speaker", Rule: spkRule + "; events reach the reconcilers through their real update filters; at every quiescence with an accepted configuration and a valid store the configuration the speaker runs with must equal config.For of the store (pools, advertisements attached to exactly the nodes their selectors match now, peers); non-trivial = such a comparison happened", Assumptions: spkAssumptions},
+		genSpkCase, func(c spkCase, tr *vw.Trace) *vw.Violation { return runSpk(c, tr, false, false, "c08") })
 }
